@@ -217,7 +217,8 @@ def metaOk (m : Json.J) : Bool :=
 
 /-- C07: is one published message protocol-conformant? -/
 def conformant (p : Parsed) (subj payload : Str) : Option String :=
-  let r := p.rin
+  -- the request as the handler sees it: an empty payload leaves every field at its zero value
+  let r := if p.rin.payload = .empty then { p.rin with cid := [], isHTTP := false } else p.rin
   if subj = replySubj then
     if isPre payload then
       -- timeout:"<digits>"
